@@ -7,7 +7,9 @@ import threading
 
 
 class Baton:
-    def __init__(self, rng, switch_prob, prefix, opcode=False, max_steps=3_000_000):
+    def __init__(self, rng, switch_prob, prefix, opcode=False, max_steps=3_000_000,
+                 max_switches=20_000):
+        self.max_switches = max_switches
         self.rng = rng
         self.p = switch_prob
         self.prefix = prefix
@@ -46,7 +48,7 @@ class Baton:
     def _preempt(self, me):
         self.steps += 1
         self.run_len += 1
-        if self.steps > self.max_steps:
+        if self.steps > self.max_steps or self.switches >= self.max_switches:
             return
         if self.rng.random() < self.p:
             others = self._runnable(me)
